@@ -22,6 +22,17 @@ class C22(Monitor):
             try:
                 if s.op == 'push_stream':
                     self._push_call(w, e, s)
+                elif s.op in ('send_headers', 'reset_stream') and not s.ok and not s.snap['closed']:
+                    # 'the promised stream then carries a response': a stream this endpoint has promised (PUSH_PROMISE on
+                    # the wire, no RST_STREAM either way since) exists, whatever else may be wrong with the call
+                    sid = (s.args or {}).get('sid')
+                    pre = s.pre.get(sid) if isinstance(sid, int) else None
+                    if pre is not None and pre.state == 'rsvL' and pre.mine and \
+                            s.exc['type'] in ('NoSuchStreamError', 'StreamClosedError') and \
+                            'conn' not in self.poison[s.ep] and sid not in self.poison[s.ep]:
+                        self.probe('call_on_promised_stream_failed_lookup')
+                        self.fail('promised-stream-lost', '%s on a stream this endpoint has promised raised %s' % (s.op, s.exc['type']), s,
+                                  sid=sid)
             finally:
                 if not s.ok and s.exc['proto'] and s.exc['where'] and \
                         (s.exc['where'].endswith('process_input') or s.exc['where'].startswith('stream.')):
